@@ -38,12 +38,16 @@ Configs ==
 \* Group-by values containing the comma or empty: a record's group is the TUPLE of its group-by values, so ("x,y","z") and
 \* ("x","y,z") are different groups whatever text an implementation joins them into.  (The engine renders DKVP with ";".)
 RUsep == { <<P("a", "x,y"), P("b", "z")>>, <<P("a", "x"), P("b", "y,z")>>, <<P("a", "x"), P("b", "y")>>,
-           <<P("a", ","), P("b", "")>>, <<P("a", ""), P("b", ",")>> }
+           <<P("a", ","), P("b", "")>>, <<P("a", ""), P("b", ",")>>,
+           \* one field whose value reads like two fields: a record is its sequence of (name, value) pairs, whatever text an
+           \* implementation writes it as to compare it with another
+           <<P("a", "x,b=y")>> }
 StreamsSep == UNION {[1..l -> RUsep] : l \in 0..MaxLen}
 AB == <<"a", "b">>
 SepConfigs ==
   {Cfg("head", 1, AB, ""), Cfg("head", 2, AB, ""), Cfg("tail", 1, AB, ""), Cfg("tail", 2, AB, ""), Cfg("cat", 0, AB, "-n"),
-   Cfg("cat", 0, AB, "-N"), Cfg("group-by", 0, AB, ""), Cfg("decimate", 2, AB, "-b"), Cfg("decimate", 2, AB, "-e")}
+   Cfg("cat", 0, AB, "-N"), Cfg("group-by", 0, AB, ""), Cfg("decimate", 2, AB, "-b"), Cfg("decimate", 2, AB, "-e"),
+   Cfg("uniq-a", 0, <<>>, ""), Cfg("uniq-a", 0, <<>>, "-c"), Cfg("uniq-a", 0, <<>>, "-n"), Cfg("group-like", 0, <<>>, ""), Cfg("tac", 0, <<>>, "")}
 \* Slow arrival: longer streams delivered one record at a time with a pause after each (the engine runs these cases with
 \* --records-per-batch 1 and a delay at the line reader's hook), so that a verb that tells the reader to stop - or believes
 \* it may - does so while most of the input has not been read yet.  What the verb outputs does not depend on arrival times.
